@@ -365,7 +365,7 @@ func (m c08) Run(c *fw.Ctx) {
 	}
 	c.Exhaustive("Resize on 7 fixed layouts of 1..3 segments x {fwd,complement,mixed} x 5 modifier forms x offsets in [-len-3,len+3]")
 	r := c.Rng
-	N := c.Pick(6000, 400000)
+	N := c.Pick(30000, 400000)
 	for it := 0; it < N; it++ {
 		c.NextOwn()
 		L := 40 + r.Intn(21)
